@@ -117,6 +117,58 @@ def simulate(c, n, replicas, nbug, maxcommit, depth, restart, quiesce=True):
     return out[:n]
 
 
+def uniform(c, n, replicas, nbug=3, depth=18, restart=False):
+    """Schedules drawn uniformly over the action kinds (TLC's simulation picks uniformly among successor states and so mostly
+    edits with their many parameter values); which bug exists where is tracked the way the model does, and the trace
+    specification judges these schedules like all others."""
+    import random
+    rnd = random.Random(c.seed * 15485863 + len(replicas))
+    runs_choices = [[{"au": "u1", "n": 1}], [{"au": "u2", "n": 2}], [{"au": "u1", "n": 1}, {"au": "u2", "n": 1}], [{"au": "u2", "n": 1}]]
+
+    def step(act, r, b=0, runs=None, loaders=False):
+        return {"act": act, "r": r, "b": b, "runs": runs or [], "loaders": loaders}
+    out = []
+    for k in range(n):
+        ref = {r: set() for r in replicas}
+        trk = {r: set() for r in replicas}
+        hub, made, steps = set(), 0, []
+        while len(steps) < depth:
+            r = rnd.choice(replicas)
+            acts = ["NewBug", "Fetch", "MergeAll"]
+            if ref[r]:
+                acts += ["Edit", "Edit", "Read", "Push"]
+            if restart and ref[r]:
+                acts += ["Reopen", "DeleteClocks"]
+            a = rnd.choice(acts)
+            if a == "NewBug":
+                if made >= nbug:
+                    continue
+                made += 1
+                ref[r].add(made)
+                steps.append(step("NewBug", r, runs=rnd.choice(runs_choices)))
+            elif a == "Edit":
+                steps.append(step("Edit", r, rnd.choice(sorted(ref[r])), rnd.choice(runs_choices)))
+            elif a == "Read":
+                steps.append(step("Read", r, rnd.choice(sorted(ref[r]))))
+            elif a == "Push":
+                hub |= ref[r]
+                trk[r] |= ref[r]
+                steps.append(step("Push", r))
+            elif a == "Fetch":
+                trk[r] |= hub
+                steps.append(step("Fetch", r))
+            elif a == "MergeAll":
+                ref[r] |= trk[r]
+                steps.append(step("MergeAll", r))
+            elif a == "Reopen":
+                steps.append(step("Reopen", r, loaders=True))
+            else:
+                steps.append(step("DeleteClocks", r))
+                steps.append(step("Reopen", r, loaders=True))
+        out.append({"replicas": list(replicas), "steps": steps, "quiesce": True, "name": "uniform-%d" % k})
+    return out
+
+
 def execute(c, scheds, tag="w"):
     sf = os.path.join(c.scratch, "sched-%s.ndjson" % tag)
     with open(sf, "w") as f:
